@@ -2,6 +2,7 @@
 package c01
 
 import (
+	"fmt"
 	"testing"
 
 	"github.com/openacid/low/bitmap"
@@ -10,6 +11,58 @@ import (
 	"verif/harness/gen"
 	"verif/harness/vk"
 )
+
+// keep registers a returned result for later re-validation (set in init: the checker refers to check).
+var keep func(func() string)
+
+func init() { keep = checker.Keep }
+
+// coldStartResult: the very first library calls of the process are rank queries with indexes computed
+// by the oracle (no index builder has run yet).
+var coldStartResult = func() (msg string) {
+	defer func() {
+		if r := recover(); r != nil {
+			msg = fmt.Sprintf("first use in the process panicked: %v", r)
+		}
+	}()
+	for _, w := range [][]uint64{{^uint64(0), 0x5, ^uint64(0), 1 << 63}, {0x0123456789abcdef, 0, 0xffff}} {
+		var i64, i128 []int32
+		cnt := int32(0)
+		for k, x := range w {
+			i64 = append(i64, cnt)
+			if k%2 == 0 {
+				i128 = append(i128, cnt)
+			}
+			for b := 0; b < 64; b++ {
+				cnt += int32(x >> uint(b) & 1)
+			}
+		}
+		i64 = append(i64, cnt)
+		if len(w)%2 == 0 {
+			i128 = append(i128, cnt)
+		}
+		c := int32(0)
+		for i := 0; i < 64*len(w); i++ {
+			bit := int32(w[i/64] >> uint(i%64) & 1)
+			if r, b := bitmap.Rank64(w, i64, int32(i)); r != c || b != bit {
+				return fmt.Sprintf("first use in the process: Rank64(%#x, oracle-built index, %d) = (%d,%d), want (%d,%d)", w, i, r, b, c, bit)
+			}
+			if r, b := bitmap.Rank128(w, i128, int32(i)); r != c || b != bit {
+				return fmt.Sprintf("first use in the process: Rank128(%#x, oracle-built index, %d) = (%d,%d), want (%d,%d)", w, i, r, b, c, bit)
+			}
+			c += bit
+		}
+	}
+	return ""
+}()
+
+func TestColdStart(t *testing.T) {
+	vk.SetPhase("coldstart")
+	vk.Label("cold-start-probe", 1)
+	if coldStartResult != "" {
+		checker.Run(t, Case{Style: "cold-start:" + coldStartResult})
+	}
+}
 
 func TestMain(m *testing.M) { vk.Main(m, "C01") }
 
@@ -41,6 +94,9 @@ var checker = &vk.Checker[Case]{
 }
 
 func classify(c Case) (bool, []string) {
+	if len(c.Style) > 11 && c.Style[:11] == "cold-start:" {
+		return false, []string{"cold-start-failure"}
+	}
 	w := c.words()
 	has0, has1 := false, false
 	for _, x := range w {
@@ -75,6 +131,12 @@ func classify(c Case) (bool, []string) {
 var scratch vk.Scratch
 
 func check(c Case) (f *vk.Failure) {
+	if len(c.Style) > 11 && c.Style[:11] == "cold-start:" {
+		if coldStartResult != "" {
+			return vk.Failf("cold-start", "%s", coldStartResult)
+		}
+		return nil
+	}
 	orig := c.words()
 	words := vk.Words(orig).Clone() // what the code under test sees: a private copy ...
 	reused := scratch.Reuse(vk.SumU64(orig))
@@ -140,6 +202,37 @@ func check(c Case) (f *vk.Failure) {
 		}
 	}); f != nil {
 		return f
+	}
+
+	// what a caller's append would do: the spare capacity of every returned index is overwritten;
+	// no other index (nor anything built later) may be affected
+	vk.ScribbleI32(idx)
+	vk.ScribbleI32(idxF)
+	vk.ScribbleI32(idxT)
+	vk.ScribbleI32(idx128)
+	// the indexes stay under watch while later cases run
+	{
+		k64, k128 := idxT, idx128
+		w64, w128 := make([]int32, len(idxT)), make([]int32, len(idx128))
+		for i := range w64 {
+			w64[i] = pre[min(64*i, nbits)]
+		}
+		for i := range w128 {
+			w128[i] = pre[min(128*i, nbits)]
+		}
+		keep(func() string {
+			for i := range w64 {
+				if k64[i] != w64[i] {
+					return fmt.Sprintf("IndexRank64(true) of a %d-word bitmap: entry %d was %d, now %d", len(w64)-1, i, w64[i], k64[i])
+				}
+			}
+			for i := range w128 {
+				if k128[i] != w128[i] {
+					return fmt.Sprintf("IndexRank128 of a %d-word bitmap: entry %d was %d, now %d", n, i, w128[i], k128[i])
+				}
+			}
+			return ""
+		})
 	}
 
 	// index shapes and contents
